@@ -25,14 +25,16 @@ import (
 
 // ProbeSpec describes one probe controller.
 type ProbeSpec struct {
-	Flavor string              `json:"flavor"` // plain | queue
-	RegAt  int                 `json:"regat"`  // ms after start; 0 = registered before Run
-	Ins    []sim.InSpec        `json:"ins"`
-	Late   []sim.InSpec        `json:"late"`
-	LateAt int                 `json:"lateat"`
-	Conc   int                 `json:"conc"`
-	BusyMs int                 `json:"busyms"`
-	Mapper map[string][]string `json:"mapper"`
+	Flavor string       `json:"flavor"` // plain | queue
+	RegAt  int          `json:"regat"`  // ms after start; 0 = registered before Run
+	Ins    []sim.InSpec `json:"ins"`
+	Late   []sim.InSpec `json:"late"`
+	LateAt int          `json:"lateat"`
+	// LateDrop: indexes into Ins dropped by the same UpdateInputs call that adds Late
+	LateDrop []int               `json:"latedrop,omitempty"`
+	Conc     int                 `json:"conc"`
+	BusyMs   int                 `json:"busyms"`
+	Mapper   map[string][]string `json:"mapper"`
 }
 
 // ExtOp is an external write.
@@ -146,6 +148,27 @@ func Gen(t *rapid.T) Plan {
 					in := genIn(t, []int{controller.InputWeak, controller.InputStrong, controller.InputDestroyReady}, "late")
 					if !conflicts(append(append([]sim.InSpec(nil), ps.Ins...), ps.Late...), in) && !(exclude && muted(append(append([]sim.InSpec(nil), ps.Ins...), ps.Late...), in)) {
 						ps.Late = append(ps.Late, in)
+					}
+				}
+
+				// narrowing: the same call may drop some of the initial inputs; a third of those cases replace a
+				// kind-wide input by an input on one ID of that kind
+				switch rapid.IntRange(0, 5).Draw(t, "narrow") {
+				case 0, 1:
+					for idx := range ps.Ins {
+						if rapid.Bool().Draw(t, "drop") {
+							ps.LateDrop = append(ps.LateDrop, idx)
+						}
+					}
+				case 2:
+					for idx, in := range ps.Ins {
+						if in.ID == "" && len(ps.LateDrop) == 0 {
+							byID := sim.InSpec{NS: in.NS, Typ: in.Typ, ID: rapid.SampledFrom(ids).Draw(t, "narrowid"), Kind: in.Kind}
+							if !conflicts(append(append([]sim.InSpec(nil), ps.Ins...), ps.Late...), byID) {
+								ps.Late = append(ps.Late, byID)
+								ps.LateDrop = append(ps.LateDrop, idx)
+							}
+						}
 					}
 				}
 			}
@@ -324,7 +347,7 @@ func runBubble(p Plan) (v hk.Verdict) {
 
 		switch ps.Flavor {
 		case "plain":
-			pp := &sim.PlainProbe{W: w, NameStr: name, Ins: ps.Ins, Late: ps.Late, LateAt: ps.LateAt, Busy: time.Duration(ps.BusyMs) * time.Millisecond}
+			pp := &sim.PlainProbe{W: w, NameStr: name, Ins: ps.Ins, Late: ps.Late, LateAt: ps.LateAt, LateDrop: ps.LateDrop, Busy: time.Duration(ps.BusyMs) * time.Millisecond}
 			plains[i] = pp
 			regErr[i] = w.RT.RegisterController(pp)
 		case "queue":
@@ -487,10 +510,14 @@ func runBubble(p Plan) (v hk.Verdict) {
 					}
 				}
 
-				if pp.LateAt > 0 && len(pp.CurrentInputs()) > len(ps.Ins) {
+				if pp.LateAt > 0 && len(pp.CurrentInputs()) > len(ps.Ins)-len(ps.LateDrop) {
 					v.Label("late-input")
 
 					v.NonTrivial = true
+				}
+
+				if pp.LateAt > 0 && len(ps.LateDrop) > 0 && len(pp.CurrentInputs()) < len(ps.Ins)+len(ps.Late) {
+					v.Label("inputs-narrowed")
 				}
 
 				for _, o := range obs {
